@@ -204,6 +204,36 @@ func init() {
 		return one(st, scalar(r, c.ResT.At(0).Type()))
 	})
 
+	kp := "iface:nodeenrollment.X25519KeyProducer."
+	reg(kp+"X25519EncryptionKey", func(x *Exec, st *State, c *CallCtx) []Outcome {
+		declCrypto(x)
+		ks := c.Args[0].T
+		x.ufun("kp!curOk", []string{SInt}, SBool)
+		x.ufun("kp!curId", []string{SInt}, SStr)
+		x.ufun("kp!curKey", []string{SInt}, SStr)
+		fail, fe := x.errFork(st, "x25519")
+		fail.assume(Not(app("kp!curOk", SBool, ks)))
+		st.assume(app("kp!curOk", SBool, ks))
+		bt := c.ResT.At(1).Type()
+		key := x.newBytes(st, app("kp!curKey", SStr, ks), bt)
+		st.assume(Eq(StrLen(app("kp!curKey", SStr, ks)), IntT(32)))
+		return []Outcome{{St: st, Res: []Val{strV(app("kp!curId", SStr, ks)), key, nilErr()}}, {St: fail, Res: []Val{strV(StrT("")), scalar(IntT(0), bt), fe}}}
+	})
+	reg(kp+"PreviousX25519EncryptionKey", func(x *Exec, st *State, c *CallCtx) []Outcome {
+		declCrypto(x)
+		ks := c.Args[0].T
+		x.ufun("kp!prevOk", []string{SInt}, SBool)
+		x.ufun("kp!prevId", []string{SInt}, SStr)
+		x.ufun("kp!prevKey", []string{SInt}, SStr)
+		fail, fe := x.errFork(st, "x25519prev")
+		fail.assume(Not(app("kp!prevOk", SBool, ks)))
+		st.assume(app("kp!prevOk", SBool, ks))
+		bt := c.ResT.At(1).Type()
+		key := x.newBytes(st, app("kp!prevKey", SStr, ks), bt)
+		st.assume(Eq(StrLen(app("kp!prevKey", SStr, ks)), IntT(32)))
+		return []Outcome{{St: st, Res: []Val{strV(app("kp!prevId", SStr, ks)), key, nilErr()}}, {St: fail, Res: []Val{strV(StrT("")), scalar(IntT(0), bt), fe}}}
+	})
+
 	b64 := "encoding/base64"
 	reg("(*"+b64+".Encoding).EncodeToString", func(x *Exec, st *State, c *CallCtx) []Outcome {
 		declCrypto(x)
@@ -273,4 +303,69 @@ func fieldByName(t types.Type, name string) *types.Var {
 		}
 	}
 	return nil
+}
+
+// crypto/ecdh (X25519): keys are objects with a ghost raw value.
+const (
+	ecdhPubPrefix  = "F!ecdh.PublicKey!$raw"
+	ecdhPrivPrefix = "F!ecdh.PrivateKey!$raw"
+)
+
+func init() {
+	ec := "crypto/ecdh"
+	reg(ec+".X25519", func(x *Exec, st *State, c *CallCtx) []Outcome {
+		id := x.Reg.DeclareConst("G!ecdh.X25519curve", SInt)
+		x.Reg.Axiom("x25519curve", Gt(id, IntT(0)).S)
+		return one(st, Val{K: VIface, T: id, GoT: c.ResT.At(0).Type()})
+	})
+	reg("iface:"+ec+".Curve.NewPublicKey", func(x *Exec, st *State, c *CallCtx) []Outcome {
+		declCrypto(x)
+		raw := x.bc(st, c.Args[1])
+		fail, fe := x.errFork(st, "newpub")
+		fail.assume(Neq(StrLen(raw), IntT(32)))
+		st.assume(Eq(StrLen(raw), IntT(32)))
+		x.registerPrefix(ecdhPubPrefix, types.Typ[types.String])
+		r := x.alloc(st)
+		x.writeComp(st, ecdhPubPrefix, SStr, r, raw)
+		pt := c.ResT.At(0).Type()
+		return []Outcome{{St: st, Res: []Val{scalar(r, pt), nilErr()}}, {St: fail, Res: []Val{scalar(IntT(0), pt), fe}}}
+	})
+	reg("iface:"+ec+".Curve.NewPrivateKey", func(x *Exec, st *State, c *CallCtx) []Outcome {
+		declCrypto(x)
+		raw := x.bc(st, c.Args[1])
+		fail, fe := x.errFork(st, "newpriv")
+		fail.assume(Neq(StrLen(raw), IntT(32)))
+		st.assume(Eq(StrLen(raw), IntT(32)))
+		x.registerPrefix(ecdhPrivPrefix, types.Typ[types.String])
+		r := x.alloc(st)
+		x.writeComp(st, ecdhPrivPrefix, SStr, r, raw)
+		pt := c.ResT.At(0).Type()
+		return []Outcome{{St: st, Res: []Val{scalar(r, pt), nilErr()}}, {St: fail, Res: []Val{scalar(IntT(0), pt), fe}}}
+	})
+	reg("(*"+ec+".PrivateKey).ECDH", func(x *Exec, st *State, c *CallCtx) []Outcome {
+		declCrypto(x)
+		x.Reg.Axiom("dhLen", "(forall ((a String) (b String)) (! (= (str.len (dh a b)) 32) :pattern ((dh a b))))")
+		fail, fe := x.errFork(st, "ecdh")
+		x.registerPrefix(ecdhPrivPrefix, types.Typ[types.String])
+		x.registerPrefix(ecdhPubPrefix, types.Typ[types.String])
+		priv := x.readComp(st, ecdhPrivPrefix, SStr, c.Args[0].T)
+		pub := x.readComp(st, ecdhPubPrefix, SStr, c.Args[1].T)
+		bt := c.ResT.At(0).Type()
+		out := x.newBytes(st, app("dh", SStr, priv, pub), bt)
+		return []Outcome{{St: st, Res: []Val{out, nilErr()}}, {St: fail, Res: []Val{scalar(IntT(0), bt), fe}}}
+	})
+	reg("(*"+ec+".PrivateKey).PublicKey", func(x *Exec, st *State, c *CallCtx) []Outcome {
+		declCrypto(x)
+		x.Reg.Axiom("xpubLen", "(forall ((a String)) (! (= (str.len (xpub a)) 32) :pattern ((xpub a))))")
+		x.registerPrefix(ecdhPrivPrefix, types.Typ[types.String])
+		x.registerPrefix(ecdhPubPrefix, types.Typ[types.String])
+		priv := x.readComp(st, ecdhPrivPrefix, SStr, c.Args[0].T)
+		r := x.alloc(st)
+		x.writeComp(st, ecdhPubPrefix, SStr, r, app("xpub", SStr, priv))
+		return one(st, scalar(r, c.ResT.At(0).Type()))
+	})
+	reg("(*"+ec+".PublicKey).Bytes", func(x *Exec, st *State, c *CallCtx) []Outcome {
+		x.registerPrefix(ecdhPubPrefix, types.Typ[types.String])
+		return one(st, x.newBytes(st, x.readComp(st, ecdhPubPrefix, SStr, c.Args[0].T), c.ResT.At(0).Type()))
+	})
 }
